@@ -119,9 +119,15 @@ func HarnessC10Shared() {
 // declaration and different ones get suffixed names); every property that references a
 // definition accepts exactly the documents of ITS definition's schema.
 func HarnessC10Names() {
-	if zzvrt.Param("NESTED", 1) == 1 && zzvrt.Choice(2) == 1 {
+	switch zzvrt.Param("NESTED", 1) {
+	case 2: // only the nested-vs-definition mode
 		zzNestedNameCollision()
 		return
+	case 1:
+		if zzvrt.Choice(2) == 1 {
+			zzNestedNameCollision()
+			return
+		}
 	}
 	names := []string{"line-ref", "lineRef", "line_ref", "LineRef"}[:zzvrt.Param("NAMES", 3)]
 	pool := []string{"integer", "string", "boolean", "enum:a,b", "enum:a,c"}[:zzvrt.Param("POOLKINDS", 5)]
